@@ -149,13 +149,25 @@ impl Monitor for RecoveryMon {
                 rep.count("D2.gated_link_survived_housekeeping");
             }
             // ---- D3: detected --------------------------------------------------------------------------------------------
+            // The property fixes the retry spacing only from below (>= 5 s) and above (back-off <= 120 s) and says
+            // nothing about WHICH housekeeping pass re-opens a due link: jitter inside the bounds, one re-open per
+            // pass and other lawful schedules must not be flagged (false alarms on benign patches M-2 / M-5,
+            // DESIGN.md 9.4b). A silent connected link is therefore "due" only when it has been silent for the
+            // timeout plus a few housekeeping periods (one per link, for deferral, plus two) and either no re-open was
+            // ever attempted on it or the last one is more than the maximum back-off ago. Prompt recovery after a
+            // repair is D5's business (30 s).
+            let slack = self.max_hk_gap.max(1100) * (rec.post.len() as u64 + 2);
             if is_hk && pre.connected && silent_for.is_some_and(|s| s >= self.timeout) {
+                // coverage: housekeeping arms at which a connected link has been silent for the timeout
+                rep.count("D3.silent_links_watched");
+            }
+            if is_hk && pre.connected && silent_for.is_some_and(|s| s >= self.timeout + slack) {
                 let since_attempt = if pre.reconnect_attempt_ms == 0 { u64::MAX } else { t.saturating_sub(pre.reconnect_attempt_ms) };
-                let allowed = since_attempt >= backoff_ms(pre.failure_count);
+                let allowed = since_attempt >= 120_000 + slack;
                 if allowed {
                     rep.count("D3.silent_link_due_for_teardown");
                     if !teardown {
-                        rep.violation("C08.D3.silent-link-not-torn-down", format!("arm#{} t={t}: link {id:x} has heard nothing for {:?} ms (timeout {}), back-off allows an attempt ({} ms since the last one, {} failures) but housekeeping did not tear it down", rec.no, silent_for, self.timeout, since_attempt, pre.failure_count));
+                        rep.violation("C08.D3.silent-link-not-torn-down", format!("arm#{} t={t}: link {id:x} has heard nothing for {:?} ms (timeout {}), even the maximum back-off has expired ({} ms since the last re-open, {} failures) but housekeeping has not torn it down", rec.no, silent_for, self.timeout, since_attempt, pre.failure_count));
                     }
                 } else {
                     rep.count("D3.silent_link_waiting_for_backoff");
